@@ -459,7 +459,7 @@ fn main() {
     eng.rule(
         "csi_table: 63 finals x 8 intermediates x parameter lists over {0,1,size,2^16,10^6,2^31-1} (all lists of length <=2; lengths 3..6 with exactly one large position, others 1 or size) x 3 screen \
          prefixes (empty, full+scrollback+margins, printable just written); other_streams: macro recursion/repeat/fan-out, sixel raster/repeat/colour registers, OSC, music, custom-font DCS payloads, Avatar/Ctrl-A \
-         repeats; files: golden xb/adf/idf/tnd/bin/psf/tdf files with 1-4 header or tail bytes set to extremes; icy_record_fields: every byte offset 0..96 of every zTXt record of a golden IcyDraw file overwritten with 1-4 byte extremes; psf2_headers: all combinations of extreme PSF2 header fields; csi_pairs: state-setting sequences carrying 2^16 / 10^6 / 2^31-1 (margins, scroll regions, single-edge margin updates, origin mode, far tab stop, far cursor), alone and on a screen that already has a left/right or four-parameter region, each followed by every control function (63 finals x 8 intermediates x {no parameter, 1, 25}) and by line feeds / a long printable run / index and reverse index; csi_documents: the same table with lists of length <= 2, followed by a printed character and a line, loaded as an .ans DOCUMENT on an empty document and after two lines of text; stored_numbers: 18 sequences that store 10^6 / 2^31-1 (macro id, font slot, tab stop, saved cursor, palette index, hyperlink id) each followed by every control function with every selector 0..=99 (alone and as `sel;1`); random_numbers: generated CSI/DCS sequences with random magnitudes. Each input runs in a \
+         repeats; files: golden xb/adf/idf/tnd/bin/psf/tdf files with 1-4 header or tail bytes set to extremes; icy_record_fields: every byte offset 0..96 of every zTXt record of a golden IcyDraw file overwritten with 1-4 byte extremes; psf2_headers: all combinations of extreme PSF2 header fields; csi_pairs: state-setting sequences carrying 2^16 / 10^6 / 2^31-1 (margins, scroll regions, single-edge margin updates, origin mode, far tab stop, far cursor, text-area resize), alone and on a screen that already has a left/right or four-parameter region, each followed by every control function (63 finals x 8 intermediates x {no parameter, 1, 25, 2^31-1}) and by line feeds / a long printable run / index and reverse index; csi_documents: the same table with lists of length <= 2, followed by a printed character and a line, loaded as an .ans DOCUMENT on an empty document and after two lines of text; stored_numbers: 18 sequences that store 10^6 / 2^31-1 (macro id, font slot, tab stop, saved cursor, palette index, hyperlink id) each followed by every control function with every selector 0..=99 (alone and as `sel;1`); random_numbers: generated CSI/DCS sequences with random magnitudes. Each input runs in a \
          worker: CPU (all threads) <= max(0.5 s, 50 x CPU of the same template at screen size), peak heap <= 256 MiB, no abort, no answer within 6 s = hang. Non-trivial: the case ran to completion \
          under measurement (not ended by a panic); distinct by case hash.",
     );
@@ -536,6 +536,10 @@ fn main() {
             v.push(("origin_mode+margins", format!("\x1b[1;{n}r\x1b[?6h")));
             v.push(("tab_far_right", format!("\x1b[{n}G\x1bH\x1b[1G")));
             v.push(("cursor_far", format!("\x1b[{n};{n}H")));
+            // text-area resize: the clamps of the scroll / insert / delete functions are relative to the terminal size
+            v.push(("resize_rows", format!("\x1b[8;{n};80t")));
+            v.push(("resize_columns", format!("\x1b[8;25;{n}t")));
+            v.push(("resize_both", format!("\x1b[8;{n};{n}t")));
         }
         // the same setters on a screen that already has a left/right region (and a top/bottom one): single-edge updates of an existing region
         let plain = v.clone();
@@ -551,19 +555,23 @@ fn main() {
     let st6 = steered.clone();
     eng.enumerated_with_class(
         PartCfg::new("csi_pairs", 0, 0).isolated().timeout_ms(6_000).hang_is_violation(true).heap_cap(2 << 30).exhaustive(true),
-        n_set * 63 * 8 * 3 + n_set * 3,
+        n_set * 63 * 8 * 4 + n_set * 3,
         move |i| {
-            let main = n_set * 63 * 8 * 3;
+            let main = n_set * 63 * 8 * 4;
             let (si, action): (usize, Vec<u8>) = if i < main {
                 let si = (i % n_set) as usize;
                 let r = i / n_set;
-                let pv = r % 3;
-                let inter = INTERS[((r / 3) % 8) as usize];
-                let fin = 0x40 + (r / 24) as u8;
+                let pv = r % 4;
+                let inter = INTERS[((r / 4) % 8) as usize];
+                let fin = 0x40 + (r / 32) as u8;
                 let ps: Vec<u32> = match pv {
                     0 => vec![],
                     1 => vec![1],
-                    _ => vec![H as u32],
+                    2 => vec![H as u32],
+                    // a huge count as well: every clamp of the second sequence is relative to state the first one set
+                    // (REP's count stays small: its run time is the open finding C03-rep-unbounded)
+                    _ if fin == b'b' && inter.is_empty() => vec![H as u32],
+                    _ => vec![i32::MAX as u32],
                 };
                 (si, render_csi(inter, fin, &ps, |_| H as u32, false))
             } else {
